@@ -623,7 +623,7 @@ def _dh(ctx: Ctx, faults: bool) -> None:
     from btclib.ecc.dh import diffie_hellman  # noqa: PLC0415
 
     ch = ctx.ch
-    name = ch.pick(["secp256k1", *sorted(k for k in CURVES if k != "secp256k1")], "curve")
+    name = "secp256k1" if ch.draw(4, "curve.default") == 0 else ch.pick(sorted(CURVES), "curve")
     ec = CURVES[name]
     hf = ch.pick([hashlib.sha256, hashlib.sha1, hashlib.sha512, hashlib.sha3_256], "hf")
     a, b = gk.scalar(ch, "a", ec.n), gk.scalar(ch, "b", ec.n)
@@ -886,10 +886,13 @@ def _silent_payments(ctx: Ctx) -> None:
             addresses.append(sp.address_from_keys(mult(r.b_scan), B_spend, network) if m is None else sp.labeled_address_from_keys(r.b_scan, B_spend, m, network))
             pays.append((r, m))
             r.paid += 1
+            ctx.log("pay-plain" if m is None else "pay-labelled", m, actor=f"r{recipients.index(r)}")
             if m is not None:
                 ctx.probe("sp-labelled-address")
     decoys = [gk.xonly(gk.scalar(ch, "decoy")) for _ in range(ch.draw(4, "decoys"))]
-    ctx.log("sp", mode, [x.kind for x in inputs], f"recipients={len(recipients)}", f"addresses={len(addresses)}", f"decoys={len(decoys)}")
+    for x in inputs:
+        ctx.log("input-" + x.kind, x.outpoint.tx_id[:4], x.outpoint.vout, actor="sender")
+    ctx.log("sp-" + mode, f"recipients={len(recipients)}", f"addresses={len(addresses)}", f"decoys={len(decoys)}", actor="sender")
     ctx.sample["sp"] = {"mode": mode, "inputs": [x.kind for x in inputs], "addresses": len(addresses)}
     # -- the sender --------------------------------------------------------------
     if mode == "bip352":
@@ -897,7 +900,7 @@ def _silent_payments(ctx: Ctx) -> None:
             created = sp.output_keys([(x.prv, x.spk) for x in eligible], outpoints, addresses)
     else:
         created = _bip375_sender(ctx, mode, inputs, addresses, decoys)
-    ctx.log("created", [k[:4] for k in created])
+    ctx.log("created", [k[:4].hex() for k in created], actor="sender")
     ctx.check(P, "sp-one-key-per-address", len(set(created)) == len(addresses), lambda: f"{len(set(created))} distinct output keys for {len(addresses)} addresses")
     outputs = ch.shuffled(created + decoys, "outputs.order")
     # -- the scanners --------------------------------------------------------------
@@ -912,7 +915,7 @@ def _silent_payments(ctx: Ctx) -> None:
             light = sp.scan_outputs(r.b_scan, mult(r.b_spend), tweak, outputs, labels)
         site = f"bindings={st.backend()}"
         r.found = [o.pub_key for o in full]
-        ctx.log("scan", ri, [k[:4] for k in r.found], actor=f"r{ri}")
+        ctx.log("scan", [k[:4].hex() for k in r.found], actor=f"r{ri}")
         ctx.check(
             P, "sp-light-equals-full", sorted((o.pub_key, o.prv_key_tweak) for o in full) == sorted((o.pub_key, o.prv_key_tweak) for o in light),
             lambda: f"recipient {ri}: full scan {full} != light-client scan {light}", site=site,
